@@ -75,6 +75,14 @@ def run_c07(t, tier, res):
     if opts["coverage"] == 0.0:
         opts["coverage"] = 0.5
     scratch.fresh_disk()
+    if t.chance(1, 3):
+        # the rule name was trained before from a different list (stale files in the directory)
+        old, oopts = trainer.gen_list(t, {"encoding": enc, "nonascii": True, "sites": True})
+        oopts["encoding"] = enc
+        if oopts["coverage"] == 0.0:
+            oopts["coverage"] = 0.5
+        tr_old = trainer.train(old, oopts, uuid_seed=5, filename="old.txt")
+        res.faults["retrain_over_stale_ruleset"] += 1 if tr_old.ok else 0
     tr = trainer.train(pws, opts)
     res.sample = {"passwords": pws[:14], "n": len(pws), "opts": opts}
     if not tr.ok:
